@@ -113,26 +113,38 @@ func signalEnumeration(c *Ctx, withSelfSignal bool) {
 		c.R.BrokenCheck("fault-free run of the instrumented binary failed: %s", tail(rr.Output, 300))
 		return
 	}
-	type sc struct{ spec, cls string }
+	type sc struct {
+		spec, cls string
+		stall     bool
+	}
 	var cases []sc
 	cnt := map[string]int{}
 	per := map[string]int{}
+	perStall := map[string]int{}
 	lines := readLines(flog)
 	for _, s := range lines {
 		cnt[s]++
 		cls := siteClass(s)
 		per[cls]++
-		if !c.Thorough && per[cls] > 3 {
-			continue
-		}
 		sig := "INT"
 		if (cnt[s]+len(cls))%2 == 0 {
 			sig = "TERM"
 		}
-		cases = append(cases, sc{fmt.Sprintf("%s#%d:%s", s, cnt[s], sig), cls})
+		// the signal arrives in the middle of a slow write into the cache: the writing goroutine stays at the
+		// call for longer than grog takes to exit (a large output, a slow disk)
+		if strings.HasPrefix(cls, "fs.go:") {
+			perStall[cls]++
+			if c.Thorough || perStall[cls] <= 2 {
+				cases = append(cases, sc{fmt.Sprintf("%s#%d:%s", s, cnt[s], sig), cls + ":slow", true})
+			}
+		}
+		if !c.Thorough && per[cls] > 3 {
+			continue
+		}
+		cases = append(cases, sc{fmt.Sprintf("%s#%d:%s", s, cnt[s], sig), cls, false})
 		if c.Thorough {
 			other := map[string]string{"INT": "TERM", "TERM": "INT"}[sig]
-			cases = append(cases, sc{fmt.Sprintf("%s#%d:%s", s, cnt[s], other), cls})
+			cases = append(cases, sc{fmt.Sprintf("%s#%d:%s", s, cnt[s], other), cls, false})
 		}
 	}
 	logBox.Remove()
@@ -160,6 +172,25 @@ func signalEnumeration(c *Ctx, withSelfSignal bool) {
 		for _, t := range s.Targets {
 			if d := hist.DiffListing(outputsListing(box.WS(), t), wantOut[t.Label()]); d != "" {
 				vio("C18:follow-up-build-wrong-output:after-signal-at:"+cls, "%s differs from a from-scratch build: %s", t.Label(), d)
+				return
+			}
+		}
+		// ... and what the follow-up build recorded restores the same outputs (C01): whatever the interrupted build
+		// left in the cache, under a digest or a change hash, must not be served later
+		for _, t := range s.Targets {
+			for _, p := range hist.OutputPaths(t) {
+				os.RemoveAll(filepath.Join(box.WS(), p))
+			}
+		}
+		r3 := box.Run(grog, hist.RunOpts{Args: []string{"build", "//..."}, Ceiling: 45 * time.Second})
+		if r3.TimedOut || r3.Exit != 0 {
+			vio("C18:restore-after-follow-up-build-fails:after-signal-at:"+cls, "outputs deleted, third build: exit %d timed out %v: %s", r3.Exit, r3.TimedOut, tail(r3.Output, 400))
+			return
+		}
+		for _, t := range s.Targets {
+			if d := hist.DiffListing(outputsListing(box.WS(), t), wantOut[t.Label()]); d != "" {
+				vio("C18:restore-after-follow-up-build-wrong-output:after-signal-at:"+cls, "%s, restored by the third build (outputs deleted, executed %v), differs from a from-scratch build: %s", t.Label(), r3.Started(), d)
+				return
 			}
 		}
 	}
@@ -177,8 +208,12 @@ func signalEnumeration(c *Ctx, withSelfSignal bool) {
 				return
 			}
 			defer box.Remove()
-			rr := box.Run(fbin, hist.RunOpts{Args: []string{"build", "//..."}, Env: map[string]string{"VERIF_SIGNAL": cs.spec}, Ceiling: 60 * time.Second})
-			replay := map[string]any{"signal": cs.spec, "exit": rr.Exit, "trace": rr.Trace, "grog_output_tail": tail(rr.Output, 800)}
+			env := map[string]string{"VERIF_SIGNAL": cs.spec}
+			if cs.stall {
+				env["VERIF_SIGNAL_STALL_MS"] = "20000"
+			}
+			rr := box.Run(fbin, hist.RunOpts{Args: []string{"build", "//..."}, Env: env, Ceiling: 60 * time.Second})
+			replay := map[string]any{"signal": cs.spec, "interrupted_write_is_slow": cs.stall, "exit": rr.Exit, "trace": rr.Trace, "grog_output_tail": tail(rr.Output, 800)}
 			vio := func(sig, format string, a ...any) {
 				c.R.Violate(vc.Violation{Sig: sig, Detail: fmt.Sprintf("signal %s: ", cs.spec) + fmt.Sprintf(format, a...), Replay: replay})
 			}
